@@ -39,6 +39,9 @@ def gen_sequence(rng, small, nreq):
     for k in range(nreq):
         r = rng.random()
         beh = rng.choice(["/n200", "/n200", "/n201", "/n301", "/n404", "/n500", "/e204", "/d", "/zz"])
+        if rng.random() < 0.06:
+            # a response whose body file is shorter than declared / missing: it fails after its head went out
+            beh = rng.choice(["/fs0", "/fs3", "/fs9", "/fm", "/fs10"])
         seed = rng.randint(1, 10**6)
         if r < 0.35:
             toks += req("GET", beh)
@@ -95,6 +98,14 @@ def gen(rng, tier):
             pad = rng.randint(7900, 8100)
             seq = "+".join(req("GET", "/n200")) * 1 + "+" + "+".join(req("GET", "/n201", headers=[("X-Pad", "q" * pad)])) + "+" + "+".join(req("GET", "/n200"))
         cases.append("D %d ok %s" % (small if kind != 1 else 5000, seq))
+    # responses whose body source fails after the head was sent: alone, after earlier answers, with pipelined followers
+    for beh in ("/fs0", "/fs3", "/fs9", "/fm", "/fs10"):
+        for pre in (0, 1, 3):
+            for post in (0, 2):
+                seq = "+".join(["+".join(req("GET", "/n200")) for _ in range(pre)] + ["+".join(req("GET", beh))] +
+                               ["+".join(req("GET", "/n201")) for _ in range(post)])
+                cases.append("D 100 ok %s" % seq)
+        cases.append("S 100 ok 0 0 %s" % "+".join(["+".join(req("GET", "/n200")), "+".join(req("GET", beh)), "+".join(req("GET", "/n200"))]))
     # full server: delivery schedules and panics
     ns = 40 if tier == "quick" else 2000
     for _ in range(ns):
@@ -108,6 +119,28 @@ def gen(rng, tier):
         # byte-at-a-time only for short scripts
         cases.append("S %d ok %s %d %s" % (small, sched, pause, seq))
     return cases
+
+def corr_equal(impl, model):
+    """The client may lose the tail of the transcript when the server closes with unread request bytes in its
+    receive queue (the kernel answers RST; the harness marks such transcripts with reset=1): then what the client
+    received must be a prefix of the model's transcript; everything else is compared exactly."""
+    if impl == model:
+        return True
+    if " reset=1" not in impl:
+        return False
+    it, mt = impl.replace(" reset=1", "").split(), model.split()
+    if len(it) != len(mt):
+        return False
+    for a, b in zip(it, mt):
+        if a.startswith("wire=") and b.startswith("wire="):
+            if a.startswith("wire=x") and b.startswith("wire=x"):
+                if not b.startswith(a):
+                    return False
+            # digest form (long transcripts): cannot be compared after a loss
+        elif a != b:
+            return False
+    return True
+
 
 def classify(case, model):
     t = case.split()
